@@ -57,6 +57,8 @@ def worker(args):
                 rc, out = sh("./check %s --tier quick" % c, cwd=HERE, env=env)
                 sigs = re.findall(r"^VIOLATION property=\S+ replay=\S+ sig=(\S+)", out, re.M)
                 fired[c] = {"rc": rc, "sigs": sigs[:3]}
+                if rc not in (0, 1):
+                    fired[c]["why"] = [ln[:300] for ln in out.split("\n") if ln.startswith("INCONCLUSIVE")][:2] or [out[-300:]]
             r["checks"] = fired
             r["caught"] = any(v["rc"] == 1 for v in fired.values())
         res.append(r)
